@@ -10,6 +10,7 @@ five booleans wandb ckpt structured delete save_last, then `<n> b1 … bn` = per
 `fsr    <repaired|asis> <flags1> <rounds1> <flags2> <rounds2>` →  file system at every crash point of run 2,
                                                                   starting from what run 1 (`run1Flags flags1`) left
 `traces <ver> <flagsA> <roundsA> <flagsB> <roundsB>` / `fss …` →  run B started in run A's folder (same save_ckpt_path)
+`tracel` / `fsl <ver> <flags> <rounds>`                         →  fresh run with the low-memory fallback
 `tracea` / `fsa <ver> <flags> <rounds>`                         →  run aborted inside fit after `rounds`
 `tracex` / `fsx <k> <ver> <flagsA> <roundsA> <flagsB> <roundsB>` →  run B after run A died at its crash point k
 -/
@@ -98,6 +99,15 @@ def handle (line : String) : String :=
     | some (v, (fA, rA), (fB, rB)) =>
       showStates ((List.range ((traceS v (leftBest fA) (leftLast fA) fB rB).length + 1)).map
         fun n => fsSameAt v fA rA fB rB n)
+    | none => "bad-op"
+  | "tracel" :: rest =>      -- fresh run on a host where the in-memory cache does not fit (low-memory fallback)
+    match runP pCase rest with
+    | some (v, f, r) => "ok " ++ " ".intercalate ((traceLM v f r).map Event.str)
+    | none => "bad-op"
+  | "fsl" :: rest =>
+    match runP pCase rest with
+    | some (v, f, r) =>
+      showStates ((List.range ((traceLM v f r).length + 1)).map fun n => fsAt (traceLM v f r) n)
     | none => "bad-op"
   | "tracea" :: rest =>      -- aborted inside fit after the given rounds
     match runP pCase rest with
